@@ -207,9 +207,12 @@ theorem const_head (useHex : Int → Bool) (t : Ty) (c : Const) :
   | struct p fs =>
     cases fs with
     | nil => cases p <;> exact ⟨_, _, rfl, by decide, by decide⟩
-    | cons t1 c1 rest => cases p <;> exact ⟨_, _, by simp [constIdent]; rfl, by decide, by decide⟩
-  | arr es => exact ⟨91, _, by simp [constIdent]; rfl, by decide, by decide⟩
-  | vec es => exact ⟨60, _, by simp [constIdent]; rfl, by decide, by decide⟩
+    | cons t1 c1 rest =>
+      cases p
+      · exact ⟨123, 32 :: (clistString useHex (.cons t1 c1 rest) ++ [32, 125]), by simp [constIdent], by decide, by decide⟩
+      · exact ⟨60, 123 :: 32 :: (clistString useHex (.cons t1 c1 rest) ++ [32, 125, 62]), by simp [constIdent], by decide, by decide⟩
+  | arr es => exact ⟨91, clistString useHex es ++ [93], by simp [constIdent], by decide, by decide⟩
+  | vec es => exact ⟨60, clistString useHex es ++ [62], by simp [constIdent], by decide, by decide⟩
 
 def stopL2 (r : Bytes) : Bool :=
   match r with
@@ -226,12 +229,11 @@ theorem clistString_cons_head (useHex : Int → Bool) (t : Ty) (c : Const) (rest
     ∃ h tl, clistString useHex (.cons t c rest) = h :: tl ∧ (tyString t).head? = some h ∧ TyParse.tyStart h = true := by
   obtain ⟨h, tl, heq, hs⟩ := TyParse.tyString_head t
   cases rest with
-  | nil => exact ⟨h, _, by simp [clistString, heq]; rfl, by simp [heq], hs⟩
-  | cons t' c' r' => exact ⟨h, _, by simp [clistString, heq]; rfl, by simp [heq], hs⟩
+  | nil => exact ⟨h, tl ++ 32 :: constIdent useHex t c, by simp [clistString, heq], by simp [heq], hs⟩
+  | cons t' c' r' => exact ⟨h, tl ++ 32 :: (constIdent useHex t c ++ (sComma ++ clistString useHex (.cons t' c' r'))), by simp [clistString, heq], by simp [heq], hs⟩
 
 /-- one element `T V` followed by `tail` -/
-theorem elem_step (useHex : Int → Bool) (f : Nat) (t : Ty) (c : Const) (tail : Bytes)
-    (hc : parseConst f t (constIdent useHex t c ++ tail) = some (c, tail)) :
+theorem elem_step (useHex : Int → Bool) (t : Ty) (c : Const) (tail : Bytes) :
     TyParse.parseTy (tyFuel (tyString t ++ 32 :: (constIdent useHex t c ++ tail))) (tyString t ++ 32 :: (constIdent useHex t c ++ tail))
       = some (t, 32 :: (constIdent useHex t c ++ tail)) := by
   obtain ⟨h, rest, heq, h97, h40⟩ := const_head useHex t c
@@ -240,5 +242,114 @@ theorem elem_step (useHex : Int → Bool) (f : Nat) (t : Ty) (c : Const) (tail :
   · rw [heq]; simp [TyParse.stopG, h97, h40]
   · have := TyParse.w_le_len t
     unfold tyFuel; simp only [List.length_append]; omega
+
+
+theorem clist_last (useHex : Int → Bool) (f : Nat) (t : Ty) (c : Const) (r : Bytes) (hr : stopL2 r = true)
+    (hc : parseConst f t (constIdent useHex t c ++ r) = some (c, r)) :
+    parseCList (f + 1) (clistString useHex (.cons t c .nil) ++ r) = some (.cons t c .nil, r) := by
+  have e : clistString useHex (.cons t c .nil) ++ r = tyString t ++ 32 :: (constIdent useHex t c ++ r) := by
+    simp [clistString]
+  rw [e, parseCList, elem_step useHex t c r]
+  simp only [hc]
+  unfold stopL2 at hr
+  split at hr <;> first | rfl | cases hr
+  all_goals simp_all
+
+theorem clist_more (useHex : Int → Bool) (f : Nat) (t : Ty) (c : Const) (t' : Ty) (c' : Const) (rest : CList) (r : Bytes)
+    (hc : parseConst f t (constIdent useHex t c ++ (sComma ++ (clistString useHex (.cons t' c' rest) ++ r)))
+      = some (c, sComma ++ (clistString useHex (.cons t' c' rest) ++ r)))
+    (hl : parseCList f (clistString useHex (.cons t' c' rest) ++ r) = some (.cons t' c' rest, r)) :
+    parseCList (f + 1) (clistString useHex (.cons t c (.cons t' c' rest)) ++ r) = some (.cons t c (.cons t' c' rest), r) := by
+  have e : clistString useHex (.cons t c (.cons t' c' rest)) ++ r =
+      tyString t ++ 32 :: (constIdent useHex t c ++ (sComma ++ (clistString useHex (.cons t' c' rest) ++ r))) := by
+    simp [clistString]
+  rw [e, parseCList, elem_step useHex t c _]
+  simp only [hc]
+  simp [sComma, hl]
+
+
+theorem tyStart_ne (h : UInt8) (hs : TyParse.tyStart h = true) : h ≠ 93 ∧ h ≠ 62 ∧ h ≠ 125 ∧ h ≠ 32 := by
+  simp only [TyParse.tyStart, Bool.and_eq_true, bne_iff_ne, ne_eq] at hs
+  exact ⟨hs.1.2, hs.1.1.2, hs.2, hs.1.1.1.1.1.2⟩
+
+mutual
+/-- **Round trip of constants**: the reader returns exactly the constant that was printed. -/
+theorem read_const (useHex : Int → Bool) : ∀ (c : Const) (f : Nat) (t : Ty) (r : Bytes),
+    stopC r = true → csize c ≤ f → cwf c = true → parseConst f t (constIdent useHex t c ++ r) = some (c, r)
+  | .int x, f, t, r, hr, hf, _ => by
+    obtain ⟨f', rfl⟩ : ∃ f', f = f' + 1 := ⟨f - 1, by simp [csize] at hf; omega⟩
+    simpa [constIdent] using read_int useHex f' t x r hr
+  | .zero, f, t, r, hr, hf, _ => by
+    obtain ⟨f', rfl⟩ : ∃ f', f = f' + 1 := ⟨f - 1, by simp [csize] at hf; omega⟩
+    simpa [constIdent] using read_zero f' t r hr
+  | .null, f, t, r, hr, hf, _ => by
+    obtain ⟨f', rfl⟩ : ∃ f', f = f' + 1 := ⟨f - 1, by simp [csize] at hf; omega⟩
+    simpa [constIdent] using read_null f' t r hr
+  | .undef, f, t, r, hr, hf, _ => by
+    obtain ⟨f', rfl⟩ : ∃ f', f = f' + 1 := ⟨f - 1, by simp [csize] at hf; omega⟩
+    simpa [constIdent] using read_undef f' t r hr
+  | .struct p .nil, f, t, r, _, hf, _ => by
+    obtain ⟨f', rfl⟩ : ∃ f', f = f' + 1 := ⟨f - 1, by simp [csize] at hf; omega⟩
+    cases p <;> simp [constIdent, parseConst]
+  | .struct p (.cons t1 c1 rest), f, t, r, _, hf, hw => by
+    obtain ⟨f', rfl⟩ : ∃ f', f = f' + 1 := ⟨f - 1, by simp [csize] at hf; omega⟩
+    have hf' : clsize (.cons t1 c1 rest) ≤ f' := by simp [csize] at hf; omega
+    have hw' : clwf (.cons t1 c1 rest) = true := by simpa [cwf] using hw
+    cases p with
+    | false =>
+      have hL := read_clist useHex (.cons t1 c1 rest) f' (32 :: 125 :: r) rfl hf' hw'
+      simp only at hL
+      simp [constIdent, parseConst, hL]
+    | true =>
+      have hL := read_clist useHex (.cons t1 c1 rest) f' (32 :: 125 :: 62 :: r) rfl hf' hw'
+      simp only at hL
+      simp [constIdent, parseConst, hL]
+  | .arr .nil, f, t, r, _, hf, _ => by
+    obtain ⟨f', rfl⟩ : ∃ f', f = f' + 1 := ⟨f - 1, by simp [csize] at hf; omega⟩
+    simp [constIdent, parseConst, clistString]
+  | .arr (.cons t1 c1 rest), f, t, r, _, hf, hw => by
+    obtain ⟨f', rfl⟩ : ∃ f', f = f' + 1 := ⟨f - 1, by simp [csize] at hf; omega⟩
+    have hf' : clsize (.cons t1 c1 rest) ≤ f' := by simp [csize] at hf; omega
+    have hw' : clwf (.cons t1 c1 rest) = true := by simpa [cwf] using hw
+    have hL := read_clist useHex (.cons t1 c1 rest) f' (93 :: r) rfl hf' hw'
+    simp only at hL
+    obtain ⟨h, tl, heq, _, hs⟩ := clistString_cons_head useHex t1 c1 rest
+    have hne := tyStart_ne h hs
+    rw [heq, List.cons_append] at hL
+    simp [constIdent, parseConst, heq, hne.1, hL]
+  | .vec .nil, f, t, r, _, hf, _ => by
+    obtain ⟨f', rfl⟩ : ∃ f', f = f' + 1 := ⟨f - 1, by simp [csize] at hf; omega⟩
+    simp [constIdent, parseConst, clistString]
+  | .vec (.cons t1 c1 rest), f, t, r, _, hf, hw => by
+    obtain ⟨f', rfl⟩ : ∃ f', f = f' + 1 := ⟨f - 1, by simp [csize] at hf; omega⟩
+    have hf' : clsize (.cons t1 c1 rest) ≤ f' := by simp [csize] at hf; omega
+    have hw1 : firstNoBrace (.cons t1 c1 rest) = true ∧ clwf (.cons t1 c1 rest) = true := by simpa [cwf] using hw
+    have hL := read_clist useHex (.cons t1 c1 rest) f' (62 :: r) rfl hf' hw1.2
+    simp only at hL
+    obtain ⟨h, tl, heq, hhead, hs⟩ := clistString_cons_head useHex t1 c1 rest
+    have hne := tyStart_ne h hs
+    have h123 : h ≠ 123 := by
+      have := hw1.1; simp only [firstNoBrace, hhead, bne_iff_ne, ne_eq, Option.some.injEq] at this; exact this
+    rw [heq, List.cons_append] at hL
+    simp [constIdent, parseConst, heq, hne.2.1, h123, hL]
+
+theorem read_clist (useHex : Int → Bool) : ∀ (cl : CList) (f : Nat) (r : Bytes),
+    stopL2 r = true → clsize cl ≤ f → clwf cl = true →
+    (match cl with
+     | .nil => True
+     | .cons _ _ _ => parseCList f (clistString useHex cl ++ r) = some (cl, r))
+  | .nil, _, _, _, _, _ => trivial
+  | .cons t c .nil, f, r, hr, hf, hw => by
+    obtain ⟨f', rfl⟩ : ∃ f', f = f' + 1 := ⟨f - 1, by simp [clsize] at hf; omega⟩
+    have hc := read_const useHex c f' t r (stopL2_stopC r hr) (by simp [clsize] at hf; omega) (by simp [clwf] at hw; exact hw)
+    exact clist_last useHex f' t c r hr hc
+  | .cons t c (.cons t' c' rest), f, r, hr, hf, hw => by
+    obtain ⟨f', rfl⟩ : ∃ f', f = f' + 1 := ⟨f - 1, by simp [clsize] at hf; omega⟩
+    have hw2 : cwf c = true ∧ clwf (.cons t' c' rest) = true := by simpa [clwf] using hw
+    have hc := read_const useHex c f' t (sComma ++ (clistString useHex (.cons t' c' rest) ++ r)) (by simp [sComma, stopC])
+      (by simp [clsize] at hf; omega) hw2.1
+    have hl := read_clist useHex (.cons t' c' rest) f' r hr (by simp [clsize] at hf ⊢; omega) hw2.2
+    exact clist_more useHex f' t c t' c' rest r hc hl
+end
 
 end Llir.Core2
